@@ -55,12 +55,10 @@ class NfdRegister(PrefixRegisterer):
     async def register(self, name: enc.NonStrictName) -> bool:
         # Fix the issue that NFD only allows one packet signed by a specific key for a timestamp number
         async with self._prefix_register_semaphore:
-            for _ in range(10):
-                now = utils.timestamp()
-                if now > self._last_command_timestamp:
-                    self._last_command_timestamp = now
-                    break
+            # Wait until the clock shows a timestamp that has not been used yet, however long that takes
+            while (now := utils.timestamp()) <= self._last_command_timestamp:
                 await aio.sleep(0.001)
+            self._last_command_timestamp = now
             try:
                 _, reply, _ = await self.app.express(
                     name=nfd_mgmt.make_command_v2('rib', 'register', self.app.face, name=name),
@@ -88,12 +86,10 @@ class NfdRegister(PrefixRegisterer):
     async def unregister(self, name: enc.NonStrictName) -> bool:
         # Fix the issue that NFD only allows one packet signed by a specific key for a timestamp number
         async with self._prefix_register_semaphore:
-            for _ in range(10):
-                now = utils.timestamp()
-                if now > self._last_command_timestamp:
-                    self._last_command_timestamp = now
-                    break
+            # Wait until the clock shows a timestamp that has not been used yet, however long that takes
+            while (now := utils.timestamp()) <= self._last_command_timestamp:
                 await aio.sleep(0.001)
+            self._last_command_timestamp = now
             try:
                 _, reply, _ = await self.app.express(
                     nfd_mgmt.make_command_v2('rib', 'unregister', self.app.face, name=name),
